@@ -1,5 +1,6 @@
 import TpmVerif.Model.Tpm12Core
 import TpmVerif.Model.Tpm12Nv
+import TpmVerif.Model.Tpm12Counter
 import TpmVerif.Spec.Tpm12Pcr
 /-!
   C20 — TPM 1.2 core services (PCR extend chain / reset values / locality rules, SHA-1 thread, TIS hash
@@ -1735,4 +1736,164 @@ theorem read_after_write_reachable (ops : List Op) (tag tag' : Tag) (loc loc' : 
   exact read_after_write s tag tag' loc loc' hw hw' idx off d (wf_of_wf2 _ (hwf ops fresh wf2_fresh)) hne h0 hd h1 h2
 
 end NV
+end TpmVerif.Props.C20
+
+/-!
+  ## Monotonic counters (TPM_CreateCounter / IncrementCounter / ReadCounter / ReleaseCounter / ReleaseCounterOwner)
+
+  Theorems about `Model.Tpm12.Counter` (follows tpm12/tpm_counter.c).
+-/
+namespace TpmVerif.Props.C20
+namespace Ctr
+open TpmVerif TpmVerif.Gen.Tpm12 TpmVerif.Model.Tpm12.Counter
+
+theorem foldl_max_ge (l : List Slot) (m : Nat) : m ≤ l.foldl (fun m sl => max m sl.count) m := by
+  induction l generalizing m with
+  | nil => exact Nat.le_refl _
+  | cons a as ih => exact Nat.le_trans (Nat.le_max_left _ _) (ih _)
+
+theorem foldl_max_mono (l : List Slot) (m n : Nat) (h : m ≤ n) :
+    l.foldl (fun m sl => max m sl.count) m ≤ l.foldl (fun m sl => max m sl.count) n := by
+  induction l generalizing m n with
+  | nil => exact h
+  | cons a as ih => exact ih _ _ (by simp only [Nat.max_le]; omega)
+
+/-- every slot's count, used or released, is at most the TPM-wide maximum -/
+theorem le_maxCount (l : List Slot) (i : Nat) : (l.getD i {}).count ≤ maxCount l := by
+  unfold maxCount
+  induction l generalizing i with
+  | nil => simp
+  | cons a as ih =>
+    cases i with
+    | zero =>
+      simp only [List.getD_cons_zero, List.foldl_cons]
+      exact Nat.le_trans (Nat.le_max_right 0 a.count) (foldl_max_ge _ _)
+    | succ k =>
+      simp only [List.getD_cons_succ, List.foldl_cons]
+      exact Nat.le_trans (ih k) (foldl_max_mono _ _ _ (Nat.zero_le _))
+
+/-- raising one slot never lowers the maximum -/
+theorem maxCount_set_ge (l : List Slot) (i : Nat) (sl : Slot) (h : (l.getD i {}).count ≤ sl.count) :
+    maxCount l ≤ maxCount (l.set i sl) := by
+  unfold maxCount
+  suffices ∀ m n, m ≤ n → l.foldl (fun m s => max m s.count) m ≤ (l.set i sl).foldl (fun m s => max m s.count) n from this 0 0 (Nat.le_refl _)
+  induction l generalizing i with
+  | nil => intro m n hmn; simpa using hmn
+  | cons a as ih =>
+    intro m n hmn
+    cases i with
+    | zero =>
+      simp only [List.set_cons_zero, List.foldl_cons]
+      simp only [List.getD_cons_zero] at h
+      exact foldl_max_mono _ _ _ (by simp only [Nat.max_le]; omega)
+    | succ k =>
+      simp only [List.set_cons_succ, List.foldl_cons]
+      simp only [List.getD_cons_succ] at h
+      exact ih k h _ _ (by simp only [Nat.max_le]; omega)
+
+theorem getD_set (l : List Slot) (i j : Nat) (sl : Slot) :
+    (l.set i sl).getD j {} = if i = j ∧ i < l.length then sl else l.getD j {} := by
+  simp only [List.getD_eq_getElem?_getD, List.getElem?_set]
+  by_cases h : i = j
+  · subst h
+    by_cases hl : i < l.length
+    · simp [hl]
+    · simp [hl, List.getElem?_eq_none (Nat.le_of_not_lt hl)]
+  · simp [h]
+
+def WF (s : St) : Prop := s.slots.length = TPM_MIN_COUNTERS
+
+
+theorem release_slots_count (s : St) (id j : Nat) : ((release s id).slots.getD j {}).count = (s.slots.getD j {}).count := by
+  unfold release
+  simp only [getD_set]
+  split
+  · rename_i h; rw [← h.1]
+  · rfl
+
+/-- **counters only increase**: no operation whatsoever (create, increment, read, release by either authorization, wrong
+    HMACs, Startup of any type, TPM_SaveState, power cycle, suspend/resume) lowers the count held in any slot, used or released -/
+theorem count_never_decreases (s : St) (op : Op) (j : Nat) : countOf s j ≤ countOf (step s op).1 j := by
+  unfold countOf
+  cases op <;> simp only [step]
+  case create ok =>
+    (repeat' split) <;> try exact Nat.le_refl _
+    rename_i i hi
+    simp only [getD_set]
+    split
+    · rename_i h; rw [← h.1]; exact Nat.le_trans (le_maxCount _ _) (Nat.le_succ _)
+    · exact Nat.le_refl _
+  case increment id ok =>
+    (repeat' split) <;> try exact Nat.le_refl _
+    all_goals
+      simp only [getD_set]
+      split
+      · rename_i h; rw [← h.1]; exact Nat.le_succ _
+      · exact Nat.le_refl _
+  case read id => (repeat' split) <;> exact Nat.le_refl _
+  case release id ok => (repeat' split) <;> first | exact Nat.le_refl _ | exact Nat.le_of_eq (release_slots_count _ _ _).symm
+  case releaseOwner id ok => (repeat' split) <;> first | exact Nat.le_refl _ | exact Nat.le_of_eq (release_slots_count _ _ _).symm
+  case takeOwnership => exact Nat.le_refl _
+  case startup t => (repeat' split) <;> exact Nat.le_refl _
+  case saveState => exact Nat.le_refl _
+  case powerCycle => exact Nat.le_refl _
+  case resume => exact Nat.le_refl _
+
+theorem count_never_decreases_run (ops : List Op) (s : St) (j : Nat) : countOf s j ≤ countOf (run s ops) j := by
+  induction ops generalizing s with
+  | nil => exact Nat.le_refl _
+  | cons op ops ih => exact Nat.le_trans (count_never_decreases s op j) (ih _)
+
+/-- **a new counter starts above everything the TPM has ever counted**: its first value is the maximum over all slots —
+    including released ones — plus one -/
+theorem create_above_all (s : St) (hok : (step s (.create true)).2.rc = 0) :
+    (step s (.create true)).2.value = maxCount s.slots + 1 ∧ ∀ j, countOf s j < (step s (.create true)).2.value := by
+  revert hok
+  simp only [step]
+  (repeat' split) <;> simp_all [TPM_AUTHFAIL, TPM_RESOURCES, nextCount]
+  intro j; exact Nat.lt_succ_of_le (le_maxCount _ _)
+
+/-- TPM_IncrementCounter adds exactly one, returns the new value and makes the counter the active one -/
+theorem increment_adds_one (s : St) (id : Nat) (hok : (step s (.increment id true)).2.rc = 0) :
+    (step s (.increment id true)).2.value = countOf s id + 1 ∧ (step s (.increment id true)).1.active = .id id ∧
+    (step s (.increment id true)).2.stored = true := by
+  revert hok
+  simp only [step]
+  (repeat' split) <;> simp_all [TPM_AUTHFAIL, TPM_BAD_COUNTER]
+
+/-- **one counter per boot**: once a counter has been incremented, incrementing any other counter is refused until the
+    next power cycle, whatever the authorization -/
+theorem other_counter_refused (s : St) (id j : Nat) (ok : Bool) (ha : s.active = .id id) (hj : j ≠ id) :
+    (step s (.increment j ok)).2.rc ≠ 0 ∧ (step s (.increment j ok)).1 = s := by
+  simp only [step, ha]
+  have : decide (id = j) = false := by simp; exact fun h => hj h.symm
+  (repeat' split) <;> simp_all [TPM_BAD_COUNTER, TPM_FAILEDSELFTEST, TPM_INVALID_POSTINIT, TPM_NOSRK, checkState]
+
+/-- a wrong HMAC changes nothing, for every counter command -/
+theorem bad_hmac_no_change (s : St) (id : Nat) :
+    (step s (.create false)).1 = s ∧ (step s (.increment id false)).1 = s ∧ (step s (.release id false)).1 = s ∧
+    (step s (.releaseOwner id false)).1 = s := by
+  refine ⟨?_, ?_, ?_, ?_⟩ <;> simp only [step] <;> (repeat' split) <;> simp_all
+
+/-- **counters survive restarts**: a power cycle, a suspend/resume, TPM_SaveState and Startup of any type leave every slot as
+    it is (the table is permanent data and every change is stored by the command that makes it) -/
+theorem restart_keeps_counters (s : St) (t : Nat) :
+    (step s .powerCycle).1.slots = s.slots ∧ (step s .resume).1.slots = s.slots ∧ (step s .saveState).1.slots = s.slots ∧
+    (step s (.startup t)).1.slots = s.slots := by
+  refine ⟨rfl, rfl, rfl, ?_⟩
+  simp only [step]; (repeat' split) <;> rfl
+
+/-- every command that changes the table hands the permanent state to storage -/
+theorem change_is_stored (s : St) (op : Op) (h : (step s op).1.slots ≠ s.slots) : (step s op).2.stored = true := by
+  revert h
+  cases op <;> simp only [step] <;> (repeat' split) <;> simp_all
+
+/-- TPM_ReadCounter returns the count of a created counter and refuses every other id -/
+theorem read_returns_count (s : St) (id : Nat) (hok : (step s (.read id)).2.rc = 0) :
+    (step s (.read id)).2.value = countOf s id ∧ validId s id = true := by
+  revert hok
+  simp only [step]
+  (repeat' split) <;> simp_all [TPM_BAD_COUNTER]
+
+end Ctr
 end TpmVerif.Props.C20
